@@ -283,16 +283,25 @@ Proof.
         exists (arg_pattern a'). split; [change (arg_pattern a :: map arg_pattern r) with (map arg_pattern (a :: r)); apply in_map; assumption | assumption].
 Qed.
 
-(* glob matching: `*` matches everything, a pattern without `*` and `?` only itself *)
+(* glob matching: `*` matches everything, a pattern without `*`, `?` and `[` only itself
+   (bracket expressions are tied to Python's fnmatch by an exhaustive small-alphabet comparison) *)
 Lemma gmatch_star : forall s, gmatch star s = true.
-Proof. unfold star. simpl. induction s as [|c s IH]; [reflexivity|]. simpl. exact IH. Qed.
+Proof. unfold gmatch, star. simpl. induction s as [|c s IH]; [reflexivity|]. simpl. exact IH. Qed.
 Fixpoint plain (p : str) : bool :=
-  match p with [] => true | c :: r => negb (c =? 42)%N && negb (c =? 63)%N && plain r end.
-Lemma gmatch_plain : forall p s, plain p = true -> gmatch p s = str_eqb p s.
+  match p with [] => true | c :: r => negb (c =? 42)%N && negb (c =? 63)%N && negb (c =? 91)%N && plain r end.
+Lemma gtokens_plain : forall p f, plain p = true -> length p <= f -> gtokens f p = map GLit p.
 Proof.
-  induction p as [|c p IH]; intros s H; simpl in *.
-  - destruct s; reflexivity.
-  - apply andb_prop in H. destruct H as [H Hp]. apply andb_prop in H. destruct H as [H1 H2].
-    apply negb_true_iff in H1, H2. rewrite H1. destruct s as [|d s]; [reflexivity|].
-    rewrite H2. simpl. rewrite IH by assumption. reflexivity.
+  induction p as [|c p IH]; intros f H L; destruct f; simpl in *; try reflexivity; try lia.
+  apply andb_prop in H. destruct H as [H Hp]. apply andb_prop in H. destruct H as [H H3].
+  apply andb_prop in H. destruct H as [H1 H2]. apply negb_true_iff in H1, H2, H3.
+  rewrite H1, H2, H3. f_equal. apply IH; [assumption | lia].
 Qed.
+Lemma tmatch_lits : forall p s, tmatch (map GLit p) s = str_eqb p s.
+Proof.
+  induction p as [|c p IH]; intros s; simpl.
+  - destruct s; reflexivity.
+  - destruct s as [|d s]; [reflexivity|]. simpl. rewrite IH. reflexivity.
+Qed.
+Lemma gmatch_plain : forall p s, plain p = true -> gmatch p s = str_eqb p s.
+Proof. intros p s H. unfold gmatch. rewrite gtokens_plain by (auto; lia). apply tmatch_lits. Qed.
+
